@@ -1,12 +1,10 @@
 (* C02: face arrays with negative (wrapping) entries — the layer slice_faces_plane_z of M_slicing.v. *)
 From Coq Require Import ZArith Reals Lra List Bool Lia Arith.
 From PW Require Import Num NumR Vec NpList Result.
-From PW.model Require Import M_slicing.
+From PW.model Require Import M_slicing M_slicing_spec.
 From PW.proofs Require Import P_nplist P_slicing P_slicing_mesh.
 Import ListNotations.
 
-Definition zface_in_range (nv : nat) (f : zface) : Prop :=
-  forall k, (0 <= zget f k < Z.of_nat nv)%Z.
 
 Lemma norm_face_nonneg nv f : zface_in_range nv f -> norm_face nv f = Some (zface_to_nat f).
 Proof.
